@@ -44,8 +44,9 @@ Proof. exact gen_open_only_filename. Qed.
 Print Assumptions C17_open_only_filename.
 
 (* reflective use of text-derived NAMES (not code execution, classified separately): on the parse paths only
-   setattr in p_xcfg._assign_auxiliaries (attribute names from the file, DESIGN D18) and a getattr over the
-   instance dictionary in Structure.__emptySharedStructure; on the write paths additionally the format
+   p_xcfg._assign_auxiliaries (attribute names from the file, DESIGN D18: since the repair a getattr that tests
+   that the name is not private and denotes a plain float or a new attribute, then the setattr) and a getattr
+   over the instance dictionary in Structure.__emptySharedStructure; on the write paths additionally the format
    string assembled from auxiliary names in P_xcfg.toLines *)
 Theorem C17_reflective_names_confined :
   reflective_confined gen_graph gen_entries gen_sinks gen_node_names parse_reflective_allow = true
